@@ -133,7 +133,14 @@ func c04Gen(rng *rand.Rand, tier string) []core.Spec {
 			Chunks: chunkStream(rng, stream, bounds), Fault: 0, Cmp: true, Drains: true, Note: name}
 		sp.Custom = rng.Intn(2) == 0
 		sp.StaleWDL = rng.Intn(3) == 0
+		if !server && !negotiated && rng.Intn(3) == 0 {
+			// a client whose Dialer offered compression and was turned down: RSV1 stays a violation
+			sp.ViaDial, sp.OfferDeclined, sp.DialSplit = true, true, rng.Intn(300)
+		}
 		sp.Ops = append(genReadProgram(rng, nm), drainOps(nm+3)...)
+		if sp.ViaDial {
+			sp.Ops = drainOps(nm + 3) // the dialled path is compared for ReadMessage programs only (chunking differs)
+		}
 		out = append(out, sp)
 	}
 	// header alphabet sweep: every (b0, b1) x {idle, in-message} x role x negotiated
@@ -518,6 +525,32 @@ func c06Gen(rng *rand.Rand, tier string) []core.Spec {
 		sp.Ops = append([]ROp{{K: 4, L: uint64(L)}}, genReadProgram(rng, nm)...)
 		sp.Ops = append(sp.Ops, drainOps(nm+3)...)
 		out = append(out, sp)
+	}
+	// the limit counts wire bytes: a compressed message of at most L wire bytes is read in full however
+	// far it inflates past L
+	for _, server := range []bool{false, true} {
+		for _, L := range []int{64, 256, 1000} {
+			for _, plain := range []int{L + 1, 4 * L, 5000, 40000} {
+				var z bytes.Buffer
+				fw, _ := flate.NewWriter(&z, 6)
+				fw.Write(bytes.Repeat([]byte("abcdefgh"), plain/8+1)[:plain])
+				fw.Flush()
+				wire := z.Bytes()[:z.Len()-4]
+				if len(wire) > L {
+					continue
+				}
+				k := genKey(rng)
+				for _, frames := range [][]Frame{
+					{{Fin: true, Rsv: 4, Op: 1, Masked: server, Key: k, Payload: wire}},
+					{{Fin: false, Rsv: 4, Op: 1, Masked: server, Key: k, Payload: wire[:len(wire)/2]}, {Fin: true, Op: 0, Masked: server, Key: k, Payload: wire[len(wire)/2:]}},
+				} {
+					frames = append(frames, fillerFrame(rng, server, 2, true, 3))
+					stream, bounds := encodeAll(frames)
+					out = append(out, &ReaderSpec{Prop: 6, Server: server, Negotiated: true, RBuf: core.Pick(rng, rbufChoices), Chunks: chunkStream(rng, stream, bounds), Cmp: true, Drains: true,
+						Note: "compressed-within-wire-limit", Ops: []ROp{{K: 4, L: uint64(L)}, {K: 3}, {K: 3}, {K: 3}}})
+				}
+			}
+		}
 	}
 	// the shape of F-C06: abandoned fragmented message, then a message within the limit
 	for _, L := range []int{10, 125, 512} {
